@@ -438,6 +438,31 @@ func checkC08(p *Prog, r *Report) {
 		checkUnconditionalLoopEffectByCallee(p, r, kp("LOOP", "x/pnft.InitGenesis#every-pnft-imported"), pimp, "")
 	}
 
+	// positive control for D9: the write through a struct copy of a package-level variable is seen, a fresh literal is not
+	{
+		key := kp("STATE", "ExportGenesis#builds-fresh-containers:control#fixture")
+		src := "package aliasfx\n\ntype GS struct{ W map[string]int }\n\nvar empty = GS{W: map[string]int{}}\n\nfunc Default() *GS { g := empty; return &g }\n\nfunc Fresh() *GS { return &GS{W: map[string]int{}} }\n\nfunc Shared(k string) *GS { g := empty; g.W[k] = 1; return &g }\n\nfunc Own(k string) *GS { g := GS{W: map[string]int{}}; g.W[k] = 1; return &g }\n"
+		if fx, err := buildFixture(p, "aliasfx", src); err != nil {
+			r.Undecided(key, "positive control for the shared-container rule", "checker/c08.go", "fixture does not build: "+err.Error())
+		} else {
+			count := func(name string) int {
+				n := 0
+				for _, a := range LAccesses(p, []*ssa.Function{fx[name]}) {
+					if a.Write {
+						n++
+					}
+				}
+				return n
+			}
+			got := fmt.Sprintf("%d/%d", count("Shared"), count("Own"))
+			r.Check(got == "1/0", key, "positive control: a map assignment through a struct copy of a package-level variable is reported as a write to that variable, one into a fresh literal is not", "checker/c08.go (in-memory fixture, not executed)",
+				"fixture writes "+got, "fixture writes "+got+", expected 1/0: the matcher is broken")
+		}
+	}
+
+	// D10 hand-written JSON decoders of the exported types (jsondecode.go)
+	checkJSONDecoders(p, r, "C08")
+
 	// ---------------- D5 order independence ----------------
 	for _, mod := range []string{"x/aol", "x/did", "x/pnft", "x/burn"} {
 		e := p.Func(Rel(mod), "ExportGenesis")
@@ -463,6 +488,24 @@ func checkC08(p *Prog, r *Report) {
 		}
 		r.Check(bad == "", kp("ORDER", mod+".ExportGenesis#no-map-iteration"), "exporting the same state twice gives identical bytes: no exporter iterates over a Go map", p.FnPos(e),
 			fmt.Sprintf("%d functions on the export path, none ranges over a map", len(reach.Order)), "map iteration on the export path: "+bad+" (export order would differ between runs/nodes)")
+		// D9: the exported value is built from this call's own containers: nothing on the export path writes memory that outlives
+		// the call (a package-level variable, also through a struct copy that shares its maps; a field of a long-lived struct)
+		var pathFns []*ssa.Function
+		for _, f := range reach.Order {
+			if InModule(f) && f.Blocks != nil {
+				pathFns = append(pathFns, f)
+			}
+		}
+		wr := ""
+		for _, a := range LAccesses(p, pathFns) {
+			if a.Write && !isInitFunc(a.Fn) {
+				wr = a.Loc + " (" + describeAccess(p, a) + ")"
+				break
+			}
+		}
+		r.Check(wr == "", kp("STATE", mod+".ExportGenesis#builds-fresh-containers"), "an export is a function of the stores only: the export path writes no memory that outlives the call (entries of an earlier export, or of another module's, cannot leak into this one)", p.FnPos(e),
+			fmt.Sprintf("%d functions on the export path, no write to a package-level variable or long-lived field", len(pathFns)),
+			"the export path writes "+wr+": what one export puts there is still there at the next export (entries deleted from the stores in between are exported again) and in every other value built from the same variable")
 	}
 }
 
